@@ -454,3 +454,13 @@ Proof.
           (oracle_clause_converges c W C).
   reflexivity.
 Qed.
+
+(* validity is evaluated inside the check (Model/C09Cases.v): a case that passes it is either marked outside the stated
+   assumptions — then the oracle reports nothing by definition — or valid; no side condition is left *)
+Theorem oracle_sound_checked c : c09_check c = true -> c09_oracle c = None.
+Proof.
+  intros C. destruct (existsb step_outside (c_script c)) eqn:E.
+  - unfold c09_oracle. rewrite E. reflexivity.
+  - destruct (check_spec c C) as [_ [_ H]]. destruct (H E) as [V _].
+    apply oracle_sound; [apply c09_validb_spec; exact V|exact C].
+Qed.
